@@ -18,4 +18,12 @@ for f in /tmp/mv/all/*.log; do
   echo "$id | $suite | $det"
 done
 echo "NOT DETECTED BY ANY LISTED CHECK:"
-for f in /tmp/mv/all/*.log; do grep -q "exit=1" $f || echo "  $(basename $f .log)"; done
+for f in /tmp/mv/all/*.log; do
+  id=$(basename $f .log)
+  grep -q "exit=1" $f && continue
+  if grep -q '"status": "equivalent' /verif/seeded/$id/meta.json 2>/dev/null; then
+    echo "  $id (recorded as equivalent on the current tree: see its meta.json)"
+  else
+    echo "  $id"
+  fi
+done
